@@ -2,8 +2,8 @@
 //@ props C02 C03 C01
 //@ kind W
 //@ def quick NIN=5 NV=6
-//@ def thorough NIN=7 NV=8
-//@ cbmc all --unwind 11 --unwinding-assertions --arrays-uf-always
+//@ def thorough NIN=9 NV=10
+//@ cbmc all --unwind 13 --unwinding-assertions --arrays-uf-always
 //@ timeout quick=600 thorough=1800
 //@ entry h_scanAttValue
 //@ note W: complete for every character sequence of length <= NIN without '&' (entity and character references are out of this unit's scope: scanEntityRef is not extractable; its stub is an unreachable assert)
